@@ -71,11 +71,17 @@ class Spec:
             return av if av == TAG("fresh") else TAG("dirty")
         if k == "zero":
             return TAG("zero") if av in (C(0), TAG("zero")) else TAG("dirty")
+        if k == "zn":       # a counter abstracted to zero / non-zero; an unknown value is split when it is tested
+            if av in (C(0), TAG("zero")):
+                return TAG("zero")
+            if av == TAG("nonzero") or (av[0] == "c" and av[1] != 0):
+                return TAG("nonzero")
+            return TOP
         raise KeyError(k)
 
     def default(self, path):
         k = self.tracked[path]
-        return {"bool": C(0), "enum": TOP, "vec": TAG("empty"), "fresh": TAG("fresh"), "zero": TAG("zero")}[k]
+        return {"bool": C(0), "enum": TOP, "vec": TAG("empty"), "fresh": TAG("fresh"), "zero": TAG("zero"), "zn": TAG("zero")}[k]
 
     def choices(self, path):
         k = self.tracked[path]
@@ -83,6 +89,8 @@ class Spec:
             return [C(0), C(1)]
         if k == "vec":
             return [TAG("empty"), TAG("nonempty")]
+        if k == "zn":
+            return [TAG("zero"), TAG("nonzero")]
         return None
 
 
@@ -256,7 +264,7 @@ class Machine:
                 # a by-value use of an untracked part of the object (or the object itself)
                 return ("own", r[1]) if any(Q[:len(r[1])] == r[1] for Q in self.spec.tracked) and not op["place"]["p"] else TOP
             kind = self.spec.tracked[P]
-            return self._read_trk(sigma, r[1], want=True if (decide or kind in ("bool",)) else None, vars_=vars_)
+            return self._read_trk(sigma, r[1], want=True if (decide or kind in ("bool", "zn")) else None, vars_=vars_)
         return r[1]
 
     def _rvalue(self, fn, env, sigma, rv):
@@ -314,6 +322,16 @@ class Machine:
         if k == "binop":
             a = self._operand(fn, env, sigma, rv["a"])
             b = self._operand(fn, env, sigma, rv["b"])
+            # zero / non-zero counters compared with the literal 0
+            for x, y, flip in ((a, b, False), (b, a, True)):
+                if x[0] == "tag" and x[1] in ("zero", "nonzero") and y == C(0):
+                    z = x[1] == "zero"
+                    op = rv["op"]
+                    if flip:
+                        op = {"Lt": "Gt", "Gt": "Lt", "Le": "Ge", "Ge": "Le"}.get(op, op)
+                    r_ = {"Eq": z, "Ne": not z, "Gt": not z, "Le": z, "Ge": True, "Lt": False}.get(op)
+                    if r_ is not None:
+                        return C(1 if r_ else 0)
             if a[0] == "c" and b[0] == "c":
                 op = rv["op"]
                 f = {"Eq": lambda: int(a[1] == b[1]), "Ne": lambda: int(a[1] != b[1]), "BitAnd": lambda: a[1] & b[1], "BitOr": lambda: a[1] | b[1],
